@@ -11,6 +11,7 @@ import (
 	"github.com/taurusgroup/multi-party-sig/pkg/hash"
 	"github.com/taurusgroup/multi-party-sig/pkg/math/curve"
 	"github.com/taurusgroup/multi-party-sig/verifharness/conv"
+	"github.com/taurusgroup/multi-party-sig/verifharness/ev"
 	"github.com/taurusgroup/multi-party-sig/verifharness/pbt"
 	"github.com/taurusgroup/multi-party-sig/verifharness/ref"
 	"github.com/taurusgroup/multi-party-sig/verifharness/tape"
@@ -308,6 +309,27 @@ func TestLayers(t *testing.T) {
 		c.Alpha = [2]string{rapid.SampledFrom(scalarKinds).Draw(rt, "a0"), rapid.SampledFrom(scalarKinds).Draw(rt, "a1")}
 		layerProp.One(rt, c)
 	})
+}
+
+// TestLargeBatches: "for every batch" includes batches beyond the 672 transfers one multiplication uses. The sizes sit
+// around the places where an index or a length changes representation (2^8, 2^16 transfers; a non-multiple of 8 bytes).
+func TestLargeBatches(t *testing.T) {
+	rec := ev.Get()
+	i := 0
+	for _, layer := range []string{"correlated", "extended", "additive"} {
+		for _, bytes := range []int{32, 33, 255, 256, 257, 8191, 8192, 8200} {
+			for _, kind := range []string{"alternating", "random"} {
+				if layer == "additive" && bytes > 257 && (kind != "random" || !rec.Thorough()) {
+					continue // 65k additive transfers cost ~10 s; thorough only
+				}
+				i++
+				if !rec.Mine(i) {
+					continue
+				}
+				layerProp.One(t, layerCase{Layer: layer, ChoiceKind: kind, Bytes: bytes, Rnd: conv.Hex([]byte{byte(i), 7, 9}), Seed: uint64(1000 + i), Uses: 1, Alpha: [2]string{"rand", "q-1"}})
+			}
+		}
+	}
 }
 
 // ---- multiplication end to end, with optional alteration
